@@ -209,11 +209,13 @@ struct Controller {
     std::unique_lock<std::mutex> lk(s->mu);
     if (!enabled_locked(t)) return false;
     c03::ThreadRec* r = s->th[t];
-    r->granted = true;
     s->active = t;
     s->steps++;
-    r->cv.notify_one();
-    s->cv.wait(lk, [&] { return s->active == -1; });
+    lk.unlock();
+    r->go.store(1);
+    r->go.notify_all();
+    while (s->back.load() == 0) s->back.wait(0);
+    s->back.store(0);
     return true;
   }
 
@@ -246,19 +248,7 @@ std::string do_run(const std::string& rest) {
   c03::ThreadRec* r0 = new c03::ThreadRec();
   r0->id = 0;
   s->th.push_back(r0);
-  r0->os = std::thread([s, r0, &hist, d, L]() {
-    c03::tl_self = r0;
-    run_history(hist, d, L, nullptr);
-    std::unique_lock<std::mutex> lk(s->mu);
-    r0->st = c03::ThreadRec::DONE;
-    r0->parked = true;
-    if (s->active == 0) s->active = -1;
-    s->cv.notify_all();
-  });
-  {
-    std::unique_lock<std::mutex> lk(s->mu);
-    s->cv.wait(lk, [&] { return r0->parked; });
-  }
+  c03::start_thread(s, r0, [&hist, d, L]() { run_history(hist, d, L, nullptr); });
 
   Controller c(s);
   const long kLimit = 200000 + 4 * (long)sched.size();
@@ -292,10 +282,8 @@ std::string do_run(const std::string& rest) {
   if (!verdict.empty()) {
     // the stuck threads stay parked on the abandoned scheduler for ever; nothing of this run is reused
     out += (out.empty() ? "" : " ") + verdict;
-    r0->os.detach();
     g.mode.store(c03::PASS);
   } else {
-    r0->os.join();
     g.mode.store(c03::PASS);
     g.sched = nullptr;
     mj_deleteData(d);
